@@ -181,6 +181,25 @@ def step (st : DState) (line : String) : DState × String :=
     (st, match (constantOf st.cfg lang (stringOfHex word)).bind (constDate st.now) with
       | some d => s!"{d.y}-{d.m}-{d.d}"
       | none => "none")
+  | ["ui", line, ops] =>
+    -- replay of the operation log of one UiTokenCollection (hook log of the implementation):
+    -- r,bs,be  a,s,e,Kind  s  u,ps,pe,Kind ; answers "<position mismatches>\t<tokens>"
+    let c0 := UiColl.new (stringOfHex line).toList
+    let (c, _, bad) := (ops.splitOn ";").foldl (fun (acc : UiColl × Option (Nat × Nat) × Nat) o =>
+      let (c, pending, bad) := acc
+      match o.splitOn "," with
+      | ["r", bs, be] => (c, some (bs.toNat!, be.toNat!), bad)
+      | ["a", s, e, k] =>
+        (match pending with
+         | some (bs, be) =>
+           let ms := c.pos bs
+           let me := c.pos be
+           (c.add ms me k, none, if ms = s.toNat! && me = e.toNat! then bad else bad + 1)
+         | none => (c.add s.toNat! e.toNat! k, none, bad))
+      | ["s"] => (c.sort, none, bad)
+      | ["u", ps, pe, k] => (c.update ps.toNat! pe.toNat! k, none, bad)
+      | _ => (c, pending, bad)) (c0, none, 0)
+    (st, s!"{bad}\t" ++ " ".intercalate (c.toks.map fun t => s!"{t.start},{t.stop},{t.kind}"))
   | ["f64parse", t] =>
     (st, match parseF64 (unescape t) with | some v => hexOfFloat v | none => "err")
   | ["f64short", h] => (st, shortStr (floatOfHex h))
